@@ -18,8 +18,8 @@ import time
 from dataclasses import dataclass, field
 from typing import Dict, List, Optional
 
-ROOT = "/verif"
-VENV_PY = ROOT + "/.venv/bin/python"
+ROOT = os.path.dirname(os.path.dirname(os.path.abspath(__file__)))  # /verif (or a scratch copy of it when testing seeded changes)
+VENV_PY = "/verif/.venv/bin/python"
 PLAIN_PY = "/venv/bin/python"
 NCPU = int(os.environ.get("VF_JOBS", str(os.cpu_count() or 4)))
 
